@@ -71,6 +71,7 @@ def run_module(ctx, mod, n, prop="C03", check_roundtrip=True, pairs=False):
                            "model %r != implementation %r on payload %s hdr %s" % (model[i][:300], txt[:300], codec.hx(p), hp),
                            input=[mod.gen, mod.key, codec.hx(p), hp])
     re_model = ctx.driver(re_lines) if (ctx.driver_ok and re_lines) else [None] * len(re_lines)
+    wf = ctx.driver(["wf" + l[5:] for l in re_lines]) if (ctx.driver_ok and re_lines) else ["1"] * len(re_lines)
     worst = None
     for j, i in enumerate(re_idx):
         (p, hp), (txt, msg) = cases[i], reals[i]
@@ -79,6 +80,12 @@ def run_module(ctx, mod, n, prop="C03", check_roundtrip=True, pairs=False):
             ctx.tie_broken("correspondence:encode %s" % tag,
                            "model %r != implementation %r for message %s" % (re_model[j][:300], rtxt[:300], txt[:300]),
                            input=[mod.gen, mod.key, codec.hx(p), hp])
+        if wf[j] != "1":
+            ctx.count("%s:not-well-formed" % tag)
+            continue           # outside the property's quantifier (field values not in their protocol domains)
+        if check_roundtrip and data is None:
+            if worst is None:
+                worst = (p, hp, txt, rtxt, "the encoder raised on a well-formed message")
         if check_roundtrip and data is not None:
             why = codec.roundtrip_ok(mod, msg, data)
             if why is not None:
